@@ -12,7 +12,7 @@ Sources transliterated (Lib/dis.py):
 All functions are indexed by the instruction ordinal k (pointwise form).
 """
 from pyvc.spec import spec, Bytes, IntSet, IntList
-from pyvc.sym import And, Implies
+from pyvc.sym import And, Implies, Len
 
 
 # ---------------------------------------------------------------- 3.6+ word code: word k is at offset 2k
@@ -141,7 +141,8 @@ def g_ext(code: Bytes, off: int, j: int) -> int:
     return (code[off + 2 * j - 1] + g_ext(code, off, j - 1)) * 256
 
 
-@spec(lemma=lambda r, code, off, have, ext: r >= 0)
+@spec(lemma=lambda r, code, off, have, ext: And(r >= 0, Implies(And(off >= 0, off < Len(code), off % 2 == 0, Len(code) % 2 == 0),
+                                                                 And(r >= 1, off + 2 * r <= Len(code)))))
 def g_len(code: Bytes, off: int, have: int, ext: int) -> int:
     """word code: number of words of the logical instruction starting at off (0 past the end)"""
     if off >= len(code):
